@@ -33,7 +33,7 @@ const (
 	kTime   // time.Time
 	kIfaceFn
 	kTuple
-	kAny // interface{} / any
+	kAny     // interface{} / any
 	kNilable // an interface type declared Nilable: ptr to its content
 )
 
@@ -420,6 +420,22 @@ func (g *gen) opaque(t types.Type, sub tsubst) string {
 		it.name = g.claim(key, pkgBase(np[:i])+"_"+np[i+1:])
 		it.text = fmt.Sprintf("(* opaque type %s (and the pointer to it, assumed non-nil) *)\nVariable %s : Type.", cmt(np), it.name)
 		g.note("values of type " + np + " are opaque; pointers to it are assumed non-nil")
+	})
+	return g.use(it).name
+}
+
+// world: the Section Variable standing for the state of everything outside the
+// program that Effect oracles act on.
+func (g *gen) world() string {
+	key := "opaque:#world"
+	if it, ok := g.byItem[key]; ok {
+		return g.use(it).name
+	}
+	it := g.begin("oracle", key, "world")
+	g.protect(it, func() {
+		it.name = g.claim(key, "world")
+		it.text = "(* the state of the outside world the Effect oracles act on *)\nVariable " + it.name + " : Type."
+		g.note("Effect oracles are functions of the world and their arguments; they return the new world. Nothing else changes the world between two calls the translated code makes (no concurrent actor is modelled)")
 	})
 	return g.use(it).name
 }
